@@ -23,13 +23,22 @@ def main():
     rc, o = sh("git diff -- fastpasta alice_protocol_reader Cargo.toml > /tmp/_seed_%s.diff; wc -l < /tmp/_seed_%s.diff" % (sid, sid), cwd=wt)
     rc, o = sh("cargo test --workspace --no-fail-fast --offline 2>&1 | grep -E '^test result' | awk '{p+=$4; f+=$6} END {print p, f}'", cwd=wt)
     out["tests_with_change"] = o.strip()
-    rc1, o1 = sh("bash demo.sh %s" % wt, cwd=wt)
-    out["demo_with_change_exit"] = rc1
-    # never `git stash` here: the stash is shared between the worktrees of /repo
-    sh("git apply -R /tmp/_seed_%s.diff" % sid, cwd=wt)
-    rc0, o0 = sh("bash demo.sh %s" % wt, cwd=wt)
-    out["demo_without_change_exit"] = rc0
-    sh("git apply /tmp/_seed_%s.diff" % sid, cwd=wt)
+    if os.environ.get("SEED_DEMO_TAKES_BINARY"):
+        # round I onwards: demo.sh takes the path of a fastpasta binary; with the change = the worktree's release build (rebuilt here),
+        # without = the binary /verif built from the clean /repo (same commit)
+        sh("cargo build --release --offline 2>&1 | tail -1", cwd=wt)
+        rc1, o1 = sh("bash demo.sh %s" % os.path.join(wt, "target", "release", "fastpasta"), cwd=wt)
+        out["demo_with_change_exit"] = rc1
+        rc0, o0 = sh("bash demo.sh %s" % os.path.join(VERIF, ".cache", "target-bin", "release", "fastpasta"), cwd=wt)
+        out["demo_without_change_exit"] = rc0
+    else:
+        rc1, o1 = sh("bash demo.sh %s" % wt, cwd=wt)
+        out["demo_with_change_exit"] = rc1
+        # never `git stash` here: the stash is shared between the worktrees of /repo
+        sh("git apply -R /tmp/_seed_%s.diff" % sid, cwd=wt)
+        rc0, o0 = sh("bash demo.sh %s" % wt, cwd=wt)
+        out["demo_without_change_exit"] = rc0
+        sh("git apply /tmp/_seed_%s.diff" % sid, cwd=wt)
     d = os.path.join(VERIF, "seeded", sid)
     os.makedirs(d, exist_ok=True)
     shutil.copy("/tmp/_seed_%s.diff" % sid, os.path.join(d, "patch.diff"))
